@@ -119,12 +119,13 @@ CLAIMED.update({
 
 CLAIMED.update({
     "C16": (
-        "units-of-measure (homogeneity degree) typing of every arithmetic node by abstract interpretation",
+        "units-of-measure (homogeneity degree) typing and location-weight (shift response) typing of every arithmetic node by abstract interpretation",
         "other",
         "Every arithmetic node reachable from rate/predict_* is typed with its degree in the skill unit; posteriors have degree 1, predictions degree 0, no node is ill-typed; in the two "
         "Thurstone-Mosteller models the kappa-derived margins handed to the correction functions are the only exempted values (the statement's exemption). By parametricity this is the scale clause "
-        "for every game and factor. The shift clause is not yet decided by this check (see not_decided in the evidence).",
-        "Trusted: osv/ai degree domain (DESIGN A.6). Assumes the gamma callback is dimensionless. Rounding differences are not bounded.",
+        "for every game and factor. Shift clause: every node is typed with its response (additive weight, multiplicative exponent) to adding one constant to every mu with all team sizes equal; "
+        "stored mu has weight exactly 1, stored sigma and every prediction weight 0, exp/Phi/sqrt/comparisons only see invariant arguments (softmax exponents cancel by value-numbered 1/c).",
+        "Trusted: osv/ai degree and weight domains (DESIGN A.6, R16.3). Assumes the gamma callback is dimensionless and shift invariant. Rounding differences are not bounded.",
         "DESIGN.md §5 C16",
     ),
     "C09": (
